@@ -193,6 +193,7 @@ class FCheck(SCheck):
             f2 = self.evaluate_fault(res2, verdict2, case, t2, p2, res)
             f2 = self.retag(f2, res2, p2, base_keys)
             fired = any(x.get("fired") for x in res2["stats"].get("faults", [])) or res2["outcome"]["kind"] == "killed"
+            p2 = robust_plan(p2, res2)
             runs.append(summarize(res2, f2, p2, {"nontrivial": bool(fired), "call": c["_call"], "role": c["_role"],
                                                  "probes": self.fault_probes(res2, c)}))
         return {"runs": runs, "item": item, "case_id": item.get("case_id"),
@@ -214,6 +215,23 @@ class FCheck(SCheck):
 
     def minimise(self, sim, item, f, deadline):
         return item
+
+
+def robust_plan(plan, res):
+    """re-address every fault by (call, object, nth) so that a replay survives unrelated changes of the call sequence"""
+    if not plan.get("faults"):
+        return plan
+    evs = res.get("events", [])
+    out = []
+    for fl in plan["faults"]:
+        fl = dict(fl)
+        ev = next((e for e in evs if e.get("site") == fl.get("site")), None)
+        if ev is not None and "call" not in fl:
+            pth = ev.get("p") if ev.get("p") is not None else ev.get("fdp", "")
+            nth = sum(1 for e in evs if e.get("site") is not None and e["site"] < ev["site"] and e["c"] == ev["c"] and (e.get("p") if e.get("p") is not None else e.get("fdp", "")) == pth)
+            fl.update(call=ev["c"], path=pth, nth=nth)
+        out.append(fl)
+    return dict(plan, faults=out)
 
 
 def single_fault_item(item, run_plan):
